@@ -59,6 +59,10 @@ func (d *dependencyAwarePostProcessors) PostProcessProperties(properties []*comp
 		//aware by name
 		if prop.TagVal != "" && (prop.Type.Kind() == reflect.Ptr || prop.Type.Kind() == reflect.Interface) {
 			dm := d.Registry.GetMetaByName(prop.TagVal)
+			//a component registered under this name whose type does not fit the field is not a candidate
+			if dm != nil && !dm.Type.AssignableTo(prop.Type) {
+				dm = nil
+			}
 			prop.Injects = append(prop.Injects, dm)
 		}
 	}
